@@ -315,6 +315,9 @@ def oracle_quantize(ctx, x, p, q, replay, check_roundtrip=True):
     if not check_roundtrip:
         return True
     d = uqt.uniform_dequantize(q, p)
+    if not finite(d):
+        ctx.fail("dequantize(quantize(x)) is not finite for finite parameters", replay, "roundtrip-nonfinite")
+        return False
     p2 = uqt.fix_quantization_params_rank(np.asarray(x), p)
     xb, db, sb, zb = np.broadcast_arrays(np.asarray(x), np.asarray(d), p2.scale, p2.zero_point)
     for xv, dv, s, z in zip(xb.flatten(), db.flatten(), sb.flatten(), zb.flatten()):
